@@ -8,7 +8,6 @@ import (
 	"go/token"
 	"go/types"
 	"strings"
-
 )
 
 func init() {
